@@ -3,6 +3,7 @@
 EXTENDS Await, Await_gen, Json
 
 VARIABLE hist
+CONSTANT KeepHist   \* TRUE only for behaviour extraction (the _paths configuration)
 
 O(site) == IF site \in DOMAIN OrdTable THEN OrdTable[site] ELSE [o |-> "sc", f |-> "sc", fences |-> <<>>]
 
@@ -13,14 +14,14 @@ MCStep ==
   /\ mm' = MM!MStep(mm, ev'.p, ev'.a, ev'.loc, ev'.ok, O(ev'.site).o, O(ev'.site).f, O(ev'.site).fences, ev'.post)
 
 MCNext ==
-  \/ MCStep /\ hist' = Append(hist, ev')
+  \/ MCStep /\ hist' = (IF KeepHist THEN Append(hist, ev') ELSE hist)
 
   \/ Quiescent /\ UNCHANGED vars /\ UNCHANGED hist
 
 MCSpec == MCInit /\ [][MCNext]_<<vars, hist>>
 
 \* every waiter is eventually released / the coroutine eventually completes, under weak fairness of every thread
-FairSpec == MCSpec /\ \A p \in Proc : WF_<<vars, hist>>(MCStep /\ hist' = Append(hist, ev') /\ ev'.p = p)
+FairSpec == MCSpec /\ \A p \in Proc : WF_<<vars, hist>>(MCStep /\ hist' = (IF KeepHist THEN Append(hist, ev') ELSE hist) /\ ev'.p = p)
 EventuallyQuiescent == <>Quiescent
 
 NoRace == MM!NoRace(mm)
